@@ -122,7 +122,11 @@ def run_kani_for(root, pid, specs, tier, seed, work):
                     failed = re.findall(r"Failed Checks: (.*)", b)
                     h["failed_checks"] = "; ".join(failed)[:1500]
                     # unwinding / unsupported-feature failures are not violations
-                    if any(("unwinding assertion" in f) or ("not supported" in f.lower()) or ("unsupported" in f.lower()) for f in failed) and not any(("assertion failed" in f) for f in failed):
+                    if not failed:
+                        # FAILED without a failed check: an unwinding bound or an unsupported construct was hit — a limit of the harness, never a violation
+                        h["status"] = "undecided"
+                        h["reason"] = "Kani reports FAILED without a failed check (unwinding bound or unsupported construct reached)"
+                    elif any(("unwinding assertion" in f) or ("not supported" in f.lower()) or ("unsupported" in f.lower()) for f in failed) and not any(("assertion failed" in f) for f in failed):
                         h["status"] = "undecided"
                         h["reason"] = "bound / unsupported construct: " + h["failed_checks"][:300]
                     else:
